@@ -6,6 +6,8 @@ import shutil
 import subprocess
 import tempfile
 
+import sys
+
 from .. import harness, runner
 from ..gen import layouts, macrosets, mutate, programs
 from . import c10, common
@@ -173,7 +175,7 @@ def overlaps(calls):
     return n, len(inv)
 
 
-def work(spec):
+def _work(spec):
     part = harness.new_partial()
     os.makedirs(runner.RUNDIR, exist_ok=True)
     d = tempfile.mkdtemp(prefix="c18", dir=runner.RUNDIR)
@@ -237,5 +239,21 @@ def work(spec):
         shutil.rmtree(d, ignore_errors=True)
 
 
+
+
+def work(spec):
+    part = _work(spec)
+    for v in part["violations"]:
+        if isinstance(v.get("case"), dict):
+            v["case"]["spec"] = spec
+    return part
+
+
 def replay(case):
-    return []
+    """re-run the chunk the stored case came from and report the violations with the same signature family"""
+    if "spec" not in case:
+        return []
+    from .. import harness as _h
+    if hasattr(sys.modules[__name__], "plan") and case["spec"].get("kind") in ("seq", "conc"):
+        plan("quick", case["spec"].get("seed", 1))   # C18: baselines are computed in plan()
+    return _work(case["spec"])["violations"]
